@@ -53,6 +53,8 @@ class Model:
     def classify(self, op):
         """Return ('ok', key, kind, payload) or ('bad', reason)."""
         kind = op[0]
+        if kind == 'other_prior':
+            return ('other', )
         key = op[1]
         keys = self.keys()
         if key is None:
@@ -80,6 +82,8 @@ class Model:
             return ('ok', key_eff, 'link', target)
         if kind == 'badtype':
             return ('bad', 'wrong type for dist')
+        if kind == 'other_prior':
+            return ('other', )
         raise ValueError(op)
 
     def resolve(self, key):
@@ -241,8 +245,23 @@ def execute(case):
     stats = dict(accepted=0, rejected=0, queries=0, kinds={})
     shared = {}
     try:
+        others = []
         for step, op in enumerate(case['ops']):
             cls = model.classify(op)
+            if cls[0] == 'other':
+                # an independent Prior object is declared (and kept alive)
+                # in the same process, with the same key names but other
+                # distributions: it must not influence this one
+                other = Prior()
+                for sub in op[1]:
+                    apply_real(other, sub, shared)
+                other.unit_to_physical(np.full(max(
+                    1, other.dimensionality()), 0.5)[:other.dimensionality()])
+                others.append(other)
+                stats['other_priors'] = stats.get('other_priors', 0) + 1
+                query(prior, model, qrng, step)
+                stats['queries'] += 1
+                continue
             before = snapshot(prior)
             try:
                 apply_real(prior, op, shared)
@@ -318,6 +337,17 @@ def draw_history(rng, max_len=8, p_bad=0.3):
         return [rng.choice([k for k in keys if k != key_eff])]
 
     for _ in range(n):
+        if keys and rng.random() < 0.12:
+            # a second, independent prior re-using some of the key names
+            sub = []
+            for k in rng.sample(keys, min(len(keys), rng.choice([1, 2, 3]))):
+                lo = rng.choice([-50.0, 100.0, 7.0])
+                sub.append(rng.choice([
+                    ['uniform', k, lo, lo + rng.choice([2.0, 200.0])],
+                    ['fixed', k, 42.0],
+                    ['dist', k, [rng.choice(DISTS), 5.0, 2.0], 'own']]))
+            ops.append(['other_prior', sub])
+            continue
         bad = rng.random() < p_bad
         if not bad:
             kind = rng.choice(['uniform', 'uniform', 'dist', 'fixed',
